@@ -186,7 +186,7 @@ def norm(x):
 
 def run_def(task):
     from . import fs_impl as F
-    d, skel, exts, prop = task
+    d, skel, exts, skeltree, prop = task
     conds = [api_cond(c) for c in d["conds"]]
     acts = [api_act(a) for a in d["acts"]]
     probs = []
@@ -218,7 +218,8 @@ def run_def(task):
         if have != want:
             k = next((i for i in range(min(len(have), len(want))) if have[i] != want[i]), min(len(have), len(want)))
             probs.append({"prop": "C06", "what": "token %d of the generated filter is %r, skeleton says %r (values must only be string contents)"
-                                                 % (k, have[k] if k < len(have) else None, want[k] if k < len(want) else None), "text": text})
+                                                 % (k, have[k] if k < len(have) else None, want[k] if k < len(want) else None), "text": text,
+                          "tokens_differ": True, "skeltree": skeltree})
         # disabled filters keep their requires and stay valid
         fs.disablefilter("n1")
         t2 = F.render(fs)
@@ -319,12 +320,12 @@ def run(prop, tier, seed):
     if res["error"] or res["violated"]:
         machinery.append("TLC FilterDefs: %s %s" % (res["error"], res["violated"]))
     tasks = []
-    for d, skel, exts in out:
+    for d, skel, exts, skeltree in out:
         if prop == "C19":
             # the quantifier's forms: no quoting-hostile values, value-less action tags
             if any(a["k"] == "vacation" for a in d["acts"]):
                 continue
-        tasks.append((d, skel, exts, prop))
+        tasks.append((d, skel, exts, skeltree, prop))
     probs, infos = [], []
     with mp.Pool(14) as pool:
         for ps, info in pool.imap(run_def, tasks, chunksize=100):
@@ -338,13 +339,26 @@ def run(prop, tier, seed):
         devs = findings.open_devs("SieveGrammar")
         lexed = [lexref.lex(s) for s in uniq]
         outs_all, st2 = ptrace.tlc_judge([l[0] for l in lexed], [])
+        from . import pengine
+        treeof = {}
         for s, outs in zip(uniq, outs_all):
             ref = [q for q in outs if not q[0]][0] if outs else None
+            if ref is not None and ref[1] == "acc":
+                # the filter's own tree: top-level nodes that are not the require
+                treeof[s.decode("utf-8")] = [n for n in pengine.nest(ref[6], raw=True) if n[0] != "require"]
             if ref is None or ref[1] != "acc" or ref[5]:
                 probs.append({"prop": "C06", "what": "generated script is not strictly valid for the reference recogniser: %s %s %s"
                                                      % (ref[1:4] if ref else None, "irregular: %s" % ref[5] if ref else "", ""),
                               "text": s.decode("utf-8")})
         st = {"distinct": st2["distinct"], "states": st2["states"]}
+        # a token-level difference is only a violation if the *trees* differ too (tags may be printed in any order)
+        kept = []
+        for pr in probs:
+            if pr.get("tokens_differ") and pr.get("text") in treeof and \
+                    pengine.loosen(treeof[pr["text"]]) == pengine.loosen(pengine.nest(pr["skeltree"], raw=False)):
+                continue
+            kept.append(pr)
+        probs = kept
     mine = [p for p in probs if p["prop"] in (prop, "both")]
     devs = findings.open_devs("FilterDefs")
     bydev = findings.by_dev()
